@@ -41,6 +41,7 @@ class C17(Prop):
         "NV.C17.relocation_members_tied",
         "NV.C17.every_pointer_member_handled",
         "NV.C17.only_switch_keys_are_addresses",
+        "NV.C17.patch_offsets_read_unsigned",
         "NV.C17.qsort_statements_tied",
         "NV.C17.binary_file_roundtrip",
         "NV.C17.decoded_file_has_valid_checksum",
@@ -212,6 +213,7 @@ class C17(Prop):
                     not re.search(r"fread \(\(char \*\) &bin_%s, sizeof \(bin_%s\), 1, f\)" % (nm, nm), lb) or \
                     not re.search(r"uint%s_t bin_%s;" % (drvw if nm == "driver_id" else cfgw, nm), lb):
                 raise X.TieBroken("binaries.c:preamble", "%s is no longer written and read with its own size" % nm)
+        layout += self.gen_patch_types(src, ic)
         layout += self.gen_functions(src, sv)
         layout += self.gen_relocation(src, lb, ic)
         layout += self.gen_qsort()
@@ -223,6 +225,31 @@ class C17(Prop):
             "/-- C: check_times() answers 0 (out of date) when `st.st_mtime %s mtime` -/" % op,
             "def checkTimesStrict : Bool := %s" % ("true" if op == ">" else "false"),
         ] + layout)
+
+    def gen_patch_types(self, src, ic):
+        """the C types through which a patch offset travels: recorded by the code generator, read back by patch_out and
+        patch_in, and the types of the table bounds read from the switch instruction"""
+        out = []
+        m = re.search(r"(\w[\w ]*?)\s+sw\s*=\s*\((\w[\w ]*?)\)\s*\(addr - 2\);\s*add_to_mem_block\s*\(A_PATCH,\s*\(char \*\)\s*&sw,\s*sizeof sw\)", ic)
+        if not m:
+            raise X.TieBroken("icode.c:A_PATCH.type", "the patch entry is no longer `<type> sw = (<type>) (addr - 2)` stored with sizeof sw")
+        out += ["/-- C: type of the patch entry the code generator stores (icode.c) -/", 'def patchEntryType : String := "%s"' % m.group(1).strip()]
+        for fn, lean in (("patch_out", "patchOut"), ("patch_in", "patchIn")):
+            a = src.find("\n%s (program_t * prog, short *patches, size_t len)" % fn)
+            if a < 0:
+                raise X.TieBroken("binaries.c:%s" % fn, "`%s (program_t * prog, short *patches, size_t len)` not found" % fn)
+            body = src[a:src.find("}\t\t\t\t/* %s() */" % fn, a)]
+            mi = re.search(r"\bint i;", body)
+            mc = re.search(r"\bi\s*=\s*(\([^()]*\))?\s*patches\[--len\];", body)
+            mt = re.search(r"\b((?:unsigned\s+)?(?:short|int|long|char))\s+offset,(?:\s*start,)?\s*break_addr;", body)
+            if not mi or not mc or not mt:
+                raise X.TieBroken("binaries.c:%s.types" % fn, "the patch offset is no longer read as `i = (<cast>) patches[--len]` into an int, "
+                                  "or the table bounds are no longer `<type> offset, … break_addr`")
+            out += ["/-- C: the cast in `i = (…) patches[--len]` of %s (empty: none) -/" % fn,
+                    'def %sOffsetCast : String := "%s"' % (lean, (mc.group(1) or "").strip("()").strip()),
+                    "/-- C: type of `offset` / `break_addr` in %s -/" % fn,
+                    'def %sBoundsType : String := "%s"' % (lean, re.sub(r"\s+", " ", mt.group(1)))]
+        return out
 
     def tie_inc_open(self):
         """inc_open (lex.c) notes, before it returns the file found in an include directory, the candidate next to the
